@@ -47,15 +47,30 @@ func TestMain(m *testing.M) {
 			"values the signature was really made for. The oracle's tables are filled from the final header on the wire. A "+
 			"returned server ID must own a signature sent in that call over (a challenge the client sent in that call, the client's key, the "+
 			"hostname), or be the ID proven when the cached token was obtained. "+
+			"TestClientOrigins walks the origin dimension of the client: ONE real ClientPeerIDAuth (all four key types, TokenTTL unlimited / 1 min / 1 h) makes "+
+			"2-6 calls, 0 s / 1 s / 30 s / TokenTTL-1 s / TokenTTL+1 s apart, to 2-4 ORIGINS whose Host strings are distinct spellings out of one family "+
+			"(a DNS name, localhost, an IPv4 literal, an IPv6 literal: the same name with another port, without port, in other letter case, with a trailing dot; "+
+			"in 1/6 of the cases one origin has an unrelated name instead, as control); the harness network routes by the exact Host string. Origin 0 is a real "+
+			"ServerPeerIDAuth; every further origin is a real instance of its own (any key type, HmacKey own / shared by the replicas of one deployment / unset, "+
+			"1/5 with the private key of origin 0, NoTLS or TLS), an alias (the instance of an earlier origin reached under this spelling), a proxy (such an "+
+			"instance behind a front end that rewrites Host to the other spelling), a plain endpoint that answers 200 / 204 / 302 / 403 / 404 / 500 / bare 401 "+
+			"without any authentication, or a parrot that answers 200 / 401 / 403 and replays the latest WWW-Authenticate / Authentication-Info another origin "+
+			"sent this client. ORACLE per call, from the recorded wire: a returned server ID needs, in a response of THAT call, a signature valid under the "+
+			"ID's key over (a challenge-server the client sent in that call, the client's key, THAT request's Host string), or the call is one bearer request, "+
+			"not answered 401, to an origin for whose exact Host string this client proved that very ID before; a bearer value sent to an origin must have "+
+			"been handed out by that origin; an origin that signed nothing gets no identity attributed, whatever it answers. "+
 			"NON-TRIVIAL = at least one operator / deviation / cross-target / expiry shift applied (TestServerInstances: at least one presentation to a "+
-			"foreign instance or of forged state); DISTINCT = distinct (base step, operator+parameter "+
+			"foreign instance or of forged state; TestClientOrigins: at least one call to an origin while the client holds an unexpired proof / token of a "+
+			"DIFFERENT origin); DISTINCT = distinct (base step, operator+parameter "+
 			"list, target relation, host class, sleep class) resp. distinct response-plan list resp. distinct (kind, relation, flow, minter secret mode -> "+
-			"target secret mode / guessed secret, host class) list.",
+			"target secret mode / guessed secret, host class) list resp. distinct (origin spellings and kinds, per call: origin, sleep class, request flow, outcome, "+
+			"relation to the origins whose token is held).",
 		"challenge lifetime is the implementation constant 5 min (handshake/server.go challengeTTL); acceptance exactly at the TTL instant is allowed either way",
 		"core/crypto Sign/Verify are trusted (property C08); a signature counts as proof when Verify accepts it under the reported peer's key over the exact expected bytes (ECDSA trailing-bytes malleability therefore never raises an alarm)",
 		"not asserted: a token minted under hostname A being refused under hostname B of the same instance; an opaque minted under hostname A being refused under B when the signature covers B; completeness (honest material being accepted) is only a harness precondition",
 		"instances that the application gives the same HmacKey count as one server (one secret): a token or challenge of one is allowed, not required, to be honoured by the other; every instance with an unset HmacKey is a server of its own",
 		"a panic of the handler reports no identity and is counted (label server-panic), not judged by this property",
+		"client side, 'the hostname' is the exact Host string of the request: two Host strings that differ only in port, letter case or a trailing dot are two origins, and a proof (or the token obtained with it) for one says nothing about the other; that the client must not send a bearer token to an origin that did not hand it out is asserted as the wire-level form of this (the token stands for the earlier proof); the client-side TokenTTL itself is not asserted",
 	)
 	hx.Main(m)
 }
